@@ -52,6 +52,20 @@ type engineSpec struct {
 	probes []string
 	// optional extra phases run before the search (e.g. reference comparison)
 	pre func(cfg *config, ctx *runCtx) error
+	// watchdog bounds the wall-clock time of one simulated run (0 = runWatchdog)
+	watchdog time.Duration
+	// sequentialSUT: the code under test has no goroutines on the simulated path (the
+	// engine's build fails closed otherwise), so a stuck run is stuck on every replay of
+	// its tape. For such an engine a run that outlived the watchdog in the search and then
+	// completes, without a violation, on every replay was slow (machine load), not stuck.
+	sequentialSUT bool
+}
+
+func (e *engineSpec) dog() time.Duration {
+	if e.watchdog > 0 {
+		return e.watchdog
+	}
+	return runWatchdog
 }
 
 var engines = map[string]*engineSpec{}
